@@ -31,10 +31,13 @@ def make_vals():
         datetime.date(2020, 1, 1), datetime.datetime(2020, 1, 1),
         Opaque('o1'), {0, 8}, {8, 0}, (1, 2), fractions.Fraction(1), 'b', [NAN],
         (0, 10), (0, 5), (1, 5),      # bounds values for the slot watcher (22, 23, 24)
+        {'a': 1, 'b': 2}, {'a': 1, 'c': 2}, [{'a': 1, 'b': 2}], [{'a': 1, 'c': 2}], {'b': 2, 'a': 1},   # 25..29
+        [1, [2, 3]], [1, [2, 4]], (1, 2.0), b'a', frozenset({1}), {1},                               # 30..35
     ]
 
 
 B0, B1, B2 = 22, 23, 24
+EQ_DOMAIN = list(range(0, 22)) + list(range(25, 36))
 
 
 class Boom(Exception):
